@@ -445,10 +445,10 @@ package proto
 //@   ensures appendOnly(b, uvsize(u64(x))) && forall j in 0..uvsize(u64(x)) :: b.Buf[old(len(b.Buf)) + j] == uvbyte(u64(x), j)
 //@   ensures uvAt(arrayof(b.Buf), offset(b.Buf) + old(len(b.Buf)), u64(x)) {varint-image}
 //@ contract (b *Buffer) PutLen(x) props(C01,C17)
-//@   requires b != nil
+//@   requires b != nil && 0 <= x
 //@   modifies b.Buf
-//@   ensures appendOnly(b, uvsize(u64(x))) && forall j in 0..uvsize(u64(x)) :: b.Buf[old(len(b.Buf)) + j] == uvbyte(u64(x), j)
-//@   ensures uvAt(arrayof(b.Buf), offset(b.Buf) + old(len(b.Buf)), u64(x)) {varint-image}
+//@   ensures appendOnly(b, uvsize(x)) && forall j in 0..uvsize(x) :: b.Buf[old(len(b.Buf)) + j] == uvbyte(x, j)
+//@   ensures uvAt(arrayof(b.Buf), offset(b.Buf) + old(len(b.Buf)), x) {varint-image}
 
 // remaining Reader primitives (signed / wide / float views of the unsigned readers)
 
